@@ -30,11 +30,12 @@ def tables(lperm, rperm, sd):
     rcols = {
         'rid': pd.Series(['r%d' % j for j in range(m)], dtype=object),
         'rs': pd.Series(rj, dtype=object),
+        'w': pd.Series(['b a', 'c', '', None, 'a b'], dtype=object),
         'z': pd.Series(pd.to_datetime(['2020-01-01', None, '2021-05-05', '2022-02-02', None])) if sd % 3 == 0
         else (pd.Series([True, False, True, True, False]) if sd % 3 == 1 else pd.Series([7, 8, 9, 10, 11])),
     }
     L = pd.DataFrame({c: lcols[c] for c in lperm})
-    R = pd.DataFrame({c: rcols[c] for c in rperm})
+    R = pd.DataFrame({c: rcols[c] for c in list(rperm) + (['w'] if 'w' not in rperm else [])})
     if sd % 4 >= 2:
         L.index = ['x%d' % i for i in range(n)]
         R.index = [5] * m
@@ -64,13 +65,14 @@ def w_proj(job):
         lsrc = {cell(r['lid']): r for r in L.to_dict('records')}
         rsrc = {cell(r['rid']): r for r in R.to_dict('records')}
         for ep in job['eps']:
-            for lo in L_MENU:
-                for ro in R_MENU:
+          for (lattr, rattr) in job.get('join_attrs', [('ls', 'rs')]):
+            for lo in job.get('l_menu', L_MENU):
+                for ro in job.get('r_menu', R_MENU):
                     for (lp, rp) in job['prefixes']:
                         for score in job['scores']:
                             sc = score and has_score(ep)
                             out = run_ep(ep, L, R, job.get('n_jobs', 1), ae=True, am=True, lo=lo, ro=ro,
-                                         lp=lp, rp=rp, score=sc, lkey='lid', rkey='rid', lattr='ls', rattr='rs')
+                                         lp=lp, rp=rp, score=sc, lkey='lid', rkey='rid', lattr=lattr, rattr=rattr)
                             calls += 1
                             la, ra = dedup(lo, 'lid') or [], dedup(ro, 'rid') or []
                             header = ['_id', lp + 'lid', rp + 'rid'] + [lp + a for a in la] + \
@@ -98,9 +100,9 @@ def w_proj(job):
                             if probs:
                                 nviol += 1
                                 if len(viol) < MAXV:
-                                    viol.append({'key': 'C11|%s|%s|%s|%r|%r|%s%s|score%s' % (
-                                                     ep, ','.join(lperm), ','.join(rperm), lo, ro, lp, rp, sc),
-                                                 'what': 'C11: %s with left columns %s, right columns %s, l_out_attrs=%r, '
+                                    viol.append({'key': 'C11|%s|%s|%s|%s,%s|%r|%r|%s%s|score%s' % (
+                                                     ep, ','.join(lperm), ','.join(rperm), lattr, rattr, lo, ro, lp, rp, sc),
+                                                 'what': 'C11: %s (join attributes ' + lattr + '/' + rattr + ') with left columns %s, right columns %s, l_out_attrs=%r, '
                                                          'r_out_attrs=%r, prefixes=%r, out_sim_score=%s: %s' % (
                                                              ep, lperm, rperm, lo, ro, (lp, rp), sc, '; '.join(probs)),
                                                  'detail': {}})
@@ -137,6 +139,17 @@ def layers(tier):
                              'seed': sd, 'n_jobs': nj})
     Ls.append(Layer('prefix-score', 'checks.c11:w_proj', jobs,
                     '3 column orders x menus x 3 prefix pairs x out_sim_score x n_jobs 1,2 x 11 entry points',
+                    min_nontrivial=100, chunksize=1))
+    # the join attribute itself varies between consecutive calls with identical attribute lists
+    jobs = []
+    for pm in some:
+        for e in range(0, len(eps), 2):
+            jobs.append({'perms': [pm], 'eps': eps[e:e + 2], 'prefixes': [PREFIXES[0]], 'scores': [True],
+                         'seed': sd, 'join_attrs': [('ls', 'rs'), ('p', 'w'), ('ls', 'w'), ('p', 'rs')],
+                         'l_menu': [['ls', 'p'], ['p', 'ls', 'q'], ['q']], 'r_menu': [['rs', 'w'], ['w', 'z', 'rs'], None]})
+    Ls.append(Layer('join-attribute', 'checks.c11:w_proj', jobs,
+                    'same attribute lists requested while the join attribute changes between consecutive calls '
+                    '(ls/p on the left, rs/w on the right): projection positions depend on which attribute is joined on',
                     min_nontrivial=100, chunksize=1))
     return Ls
 
